@@ -214,7 +214,8 @@ def _from_many_cases(self, cx):
     root = W.fresh('mc_root', Node)
 
     def log(st):
-        st.addlog.append(('from_many', self.arg, cx.a[self.arg], cx.a['allow_incomplete']))
+        src = cx.a[self.arg] if self.arg else {k: cx.a.get(k) for k in ('bucket_name', 'prefix', 'suffix')}
+        st.addlog.append(('from_many', self.arg, src, cx.a['allow_incomplete']))
 
     def eff(st):
         log(st)
@@ -278,6 +279,16 @@ class DoMerge(Contract):
             ns = namespace(files=files, bucket_name=NONE, prefix=NONE, suffix=NONE, outfile=of, cmd=NONE,
                            incomplete=SBool(W.fresh('incomplete', L.B)), non_strict=SBool(W.fresh('non_strict', L.B)))
             out.append((st, {'self': cli_obj(E, st, ns)}))
+        for with_suffix in (False, True):
+            st = State(L.Heap(0, 0), z3.IntVal(0))
+            b, pfx = SStr(W.fresh('bucket', Str)), SStr(W.fresh('prefix', Str))
+            sfx = SStr(W.fresh('suffix', Str)) if with_suffix else NONE
+            st.assume(L.s_truthy(b.t))
+            if with_suffix:
+                st.assume(L.s_truthy(sfx.t))
+            ns = namespace(files=NONE, bucket_name=b, prefix=pfx, suffix=sfx, outfile=NONE, cmd=NONE,
+                           incomplete=SBool(W.fresh('incomplete', L.B)), non_strict=SBool(W.fresh('non_strict', L.B)))
+            out.append((st, {'self': cli_obj(E, st, ns)}))
         st = State(L.Heap(0, 0), z3.IntVal(0))
         ns = namespace(files=NONE, bucket_name=NONE, prefix=NONE, suffix=NONE, outfile=NONE, cmd=NONE, incomplete=SBool(False), non_strict=SBool(False))
         out.append((st, {'self': cli_obj(E, st, ns)}))
@@ -288,7 +299,13 @@ class DoMerge(Contract):
         ns = cx.st.fields(cx.a['self'])['_args']
         xs = ns.fields['files']
         if isinstance(xs, SNone):
-            return []
+            if isinstance(ns.fields['bucket_name'], SNone):
+                return []
+            from .classify import s3_content
+            k = z3.Const('k!s3', Str)
+            c = s3_content(ns.fields['bucket_name'].t, k)
+            return [('stored_objects_are_schema_shaped_messages_when_well_formed',
+                     z3.ForAll([k], Imp(wellformed(c), schema_doc(cx.W, cx.H, parse_root(c))), patterns=[c]))]
         j = z3.Int('j!dm')
         t = xs.elem(j).t
         return [('files_hold_schema_shaped_messages_when_well_formed',
@@ -298,7 +315,7 @@ class DoMerge(Contract):
     def ensures(self, cx, ex):
         ns = cx.st.fields(cx.a['self'])['_args']
         v = ex.value
-        if isinstance(ns.fields['files'], SNone):
+        if isinstance(ns.fields['files'], SNone) and isinstance(ns.fields['bucket_name'], SNone):
             return [('C19.usage_error_gives_a_message_on_stderr_and_status_2',
                      A(z3.BoolVal(isinstance(v, SInt) and len(ex.st.err) >= 1), v.t == 2) if isinstance(v, SInt) else z3.BoolVal(False))]
         log = ex.st.addlog
@@ -308,8 +325,14 @@ class DoMerge(Contract):
         if invalid:
             return [('C19.invalid_collection_gives_a_message_on_stderr_and_status_2',
                      A(z3.BoolVal(isinstance(v, SInt) and len(ex.st.err) == 1 and not merged), v.t == 2) if isinstance(v, SInt) else z3.BoolVal(False))]
-        out = [('C19.collection_is_built_from_the_listed_files_with_incomplete_as_given',
-                A(z3.BoolVal(len(built) == 1 and built[0][2] is ns.fields['files']), built[0][3].t == ns.fields['incomplete'].t) if len(built) == 1 else z3.BoolVal(False))]
+        if len(built) == 1 and isinstance(built[0][2], dict):
+            src = built[0][2]
+            same_src = src['bucket_name'] is ns.fields['bucket_name'] and src['prefix'] is ns.fields['prefix'] and \
+                (src['suffix'] is ns.fields['suffix'] or (isinstance(ns.fields['suffix'], SNone) and getattr(src['suffix'], 'py', None) == '.mos.xml'))
+        else:
+            same_src = len(built) == 1 and built[0][2] is ns.fields['files']
+        out = [('C19.collection_is_built_from_the_given_source_with_incomplete_as_given',
+                A(z3.BoolVal(bool(same_src)), built[0][3].t == ns.fields['incomplete'].t) if len(built) == 1 else z3.BoolVal(False))]
         out.append(('C19.merge_is_strict_unless_non_strict_was_given',
                     A(z3.BoolVal(len(merged) == 1), merged[0][1].t == z3.Not(ns.fields['non_strict'].t)) if len(merged) == 1 else z3.BoolVal(False)))
         # what is written: exactly the serialisation of the merged collection's running order at the end
